@@ -141,7 +141,11 @@ theorem C02_gen_tokens_a :
   decide +kernel
 
 theorem C02_gen_tokens_b :
-    (WireTokens.expected.drop 20).all (WireTokens.agree Gen.C02.streams) = true := by
+    ((WireTokens.expected.drop 20).take 20).all (WireTokens.agree Gen.C02.streams) = true := by
+  decide +kernel
+
+theorem C02_gen_tokens_c :
+    (WireTokens.expected.drop 40).all (WireTokens.agree Gen.C02.streams) = true := by
   decide +kernel
 
 end ElaVerif.C02
